@@ -333,12 +333,51 @@ func runC20(c *mon.Ctx) {
 				c.Count("expiry_caveat_other_encoding")
 				otherEncoding = true
 			}
+			{
+				// A history: the secret lives in one buffer of the caller's that is rewritten in place between calls
+				// (a rotated key read into the same buffer, a key zeroed after use). What the library derived from the
+				// buffer's earlier content must not outlive that content.
+				buf := append([]byte{}, secret...)
+				opBuf := op
+				opBuf.ServerPrivateKey = buf
+				oNew := op
+				oNew.ServerPrivateKey = append([]byte{}, other...)
+				oOld := op
+				oOld.ServerPrivateKey = append([]byte{}, secret...)
+				// (a call under another key first, so that whatever the library may remember of the last call is not about this key)
+				_ = tokens.ValidateToken(oNew, tok)
+				tokA, errA := tokens.GenerateLoginToken(opBuf)
+				if errA == nil {
+					c.Count("key_buffer_rewritten_in_place")
+					copy(buf, other) // same length, another key
+					reject("issued-under-the-key-the-buffer-held-before", opBuf, tokA)
+					tokB, errB := tokens.GenerateLoginToken(opBuf)
+					// and back again: the first key returns to the buffer
+					copy(buf, secret)
+					if errB == nil {
+						reject("issued-under-the-other-key:buffer-restored", opBuf, tokB)
+					}
+					if err := tokens.ValidateToken(opBuf, tokA); err != nil {
+						c.Failf("token:rejects-genuine:key-buffer-restored", "a token no longer validates once its key is back in the caller's buffer: %v", err)
+					}
+					if errB == nil {
+						if err := tokens.ValidateToken(oNew, tokB); err != nil {
+							c.Failf("token:rejects-genuine:key-buffer-rewritten", "a token issued after the caller's key buffer was rewritten in place does not validate under the key the buffer held then: %v", err)
+						}
+						reject("issued-after-the-buffer-was-rewritten:validated-under-the-earlier-key", oOld, tokB)
+					}
+					if err := tokens.ValidateToken(oOld, tokA); err != nil {
+						c.Failf("token:rejects-genuine:key-buffer-rewritten", "a token issued from a buffer that was rewritten afterwards does not validate under a copy of its key: %v", err)
+					}
+				}
+			}
 			if c.WantSample() {
 				c.Sample(map[string]any{"issue": desc, "token": tok, "caveats": caveatStrings(m)})
 			}
 		})
 	}
 	c.Floor("issued", 20)
+	c.Floor("key_buffer_rewritten_in_place", 10)
 	c.Floor("must_reject_checks", 500)
 
 	// real-time expiry monitor
